@@ -186,7 +186,8 @@ def run_selftest(pid: str, repo: Repo, base_res) -> dict:
         gen = lambda _repo: []  # noqa: E731
     variants: list[Variant] = []
     inapplicable: list[str] = []
-    for make in list(gen(repo)) + recorded_variants(pid, repo):
+    scope = os.environ.get("VERIF_SELFTEST", "all")  # hand | recorded | all (development aid)
+    for make in list(gen(repo)) + (recorded_variants(pid, repo) if scope != "hand" else []):
         # each item is either a Variant or a zero-arg callable returning one
         try:
             v = make() if callable(make) else make
@@ -195,7 +196,8 @@ def run_selftest(pid: str, repo: Repo, base_res) -> dict:
             continue
         variants.append(v)
     n_hand = len(variants)
-    variants += metamorphic_variants(pid, repo)
+    if scope == "all":
+        variants += metamorphic_variants(pid, repo)
     _G.update(
         pid=pid,
         variants=variants,
